@@ -89,7 +89,7 @@ def native_ops(rng, n, rows):
         elif k == 9:
             ops.append(["select", "nosuch", "*"])
         elif k == 10:
-            ops.append(["reopen"])
+            ops.append([rng.choice(["reopen", "reopen2"])])     # reopen2: the old handle is closed twice (defer + explicit Close)
         else:
             ops.append(["select", "big", "nosuchcol"])
     return ops
